@@ -487,8 +487,51 @@ fn to_owned_pairs(v: &[(String, &'static str)]) -> Vec<(String, String)> {
     v.iter().map(|(p, k)| (p.clone(), k.to_string())).collect()
 }
 
+/// Directed: a version written on ANOTHER PLATFORM — one entry whose name is 300 bytes long (100 CJK
+/// characters: legal on NTFS/HFS+/exFAT, impossible to create on ext4) spliced into the stored index in order.
+/// Comparing that version with the (unchanged) tree reports every other entry as unchanged and the long name as
+/// deleted; the next backup's callback names the same deletion.  Real code + oracle.
+fn foreign_long_name(report: &mut Report) {
+    let work = tempfile::tempdir().unwrap();
+    let src = work.path().join("t");
+    std::fs::create_dir(&src).unwrap();
+    std::fs::write(src.join("a"), b"alpha").unwrap();
+    std::fs::write(src.join("b"), b"beta").unwrap();
+    let arch_path = work.path().join("a");
+    let long = format!("/{}", "語".repeat(100));
+    let archive = block_on(async {
+        let archive = Archive::create_path(&arch_path).await.unwrap();
+        conserve::backup(&archive, &src, &BackupOptions::default(), TestMonitor::arc()).await.unwrap();
+        archive
+    });
+    let hunk = arch_path.join("b0000/i/00000/000000000");
+    let raw = snap::raw::Decoder::new().decompress_vec(&std::fs::read(&hunk).unwrap()).unwrap();
+    let mut v: serde_json::Value = serde_json::from_slice(&raw).unwrap();
+    let template = v.as_array().unwrap().iter().find(|e| e["apath"] == "/a").cloned().unwrap();
+    let mut e = template;
+    e["apath"] = json!(long);
+    v.as_array_mut().unwrap().push(e); // sorts after "/", "/a", "/b" (flat tree: no deeper entries follow)
+    std::fs::write(&hunk, snap::raw::Encoder::new().compress_vec(&serde_json::to_vec(&v).unwrap()).unwrap()).unwrap();
+    report.case("foreign-long-name", true);
+    report.hit("directed:foreign-platform-long-name(300 bytes)");
+    let case = json!({"directed": "an index entry with a 300-byte file name, as another platform can write it"});
+    let mut want: Vec<(String, &'static str)> = vec![("/".into(), "unchanged"), ("/a".into(), "unchanged"), ("/b".into(), "unchanged"), (long.clone(), "deleted")];
+    want.sort();
+    let mut got = real_diff(&archive, &src, true);
+    got.sort();
+    if got != want {
+        report.oracle_fail("diff-vs-oracle", case.clone(), "diff(include_unchanged) of a version holding a long foreign name against the unchanged tree", json!({"reported": got.iter().map(|(p, k)| format!("{k} {}", if p.len() > 40 { "<long name>" } else { p })).collect::<Vec<_>>()}));
+    }
+    let mut got2 = real_diff(&archive, &src, false);
+    got2.sort();
+    if got2 != vec![(long.clone(), "deleted")] {
+        report.oracle_fail("diff-vs-oracle", case, "diff of a version holding a long foreign name against the unchanged tree", json!({"reported": got2.iter().map(|(p, k)| format!("{k} {}", if p.len() > 40 { "<long name>" } else { p })).collect::<Vec<_>>()}));
+    }
+}
+
 pub fn run(tier: &str, seed: u64, report: &mut Report) {
     let thorough = tier == "thorough";
+    foreign_long_name(report);
     let mut rng = Rng::new(seed ^ 0xC18);
     let n_cases = if thorough { 1500 } else { 120 };
     for case_no in 0..n_cases {
